@@ -366,11 +366,12 @@ var _ = resp.Cmd
 
 func checkC09(r *verdict.Run) {
 	r.Rule = "(1) random transaction programs on one connection (any order of MULTI/EXEC/DISCARD/WATCH/UNWATCH, queued commands of all families incl. run-time failures, queue-time rejections, blocking commands with timeout 0, SELECT) with a second connection interfering, in lock step with the reference model: QUEUED replies, nothing visible before EXEC (state compared after every step through an observer connection), EXEC array per queued command or EXECABORT/null, state machine after EXEC/DISCARD, misuse errors; " +
-		"(2) isolation under concurrency: 4 writers run transactions that keep invariants (x = y, a token in exactly one key, an element in exactly one list) while 4 readers check them with atomic multi-key reads, with yields injected between the commands of EXEC; (3) canary liveness after every program; (4) commands with locks of their own (CLIENT LIST/INFO/KILL/UNBLOCK, INFO, FLUSHALL, SELECT, KEYS, COPY ...) inside transactions on four connections and outside on four others at the same time: every command must be answered. " +
+		"(2) isolation under concurrency: 4 writers run transactions that keep invariants (x = y, a token in exactly one key, an element in exactly one list) while 4 readers check them with atomic multi-key reads, with yields injected between the commands of EXEC; (3) canary liveness after every program; (4) commands with locks of their own (CLIENT LIST/INFO/KILL/UNBLOCK, INFO, FLUSHALL, SELECT, KEYS, COPY ...) inside transactions on four connections and outside on four others at the same time: every command must be answered; (5) isolation against other databases: transactions in database 0 (five INCRs of one key must answer consecutive numbers, x and y are set together) while connections in other databases run FLUSHALL (plain, queued, ASYNC) and transactions with a queued SELECT 0. " +
 		"distinct = (command, MULTI state, outcome class) + EXEC element classes + isolation runs"
 	c09Sequential(r, tierPick(r, 400, 8000))
 	c09Isolation(r, tierPick(r, 6, 40), false)
 	c09Introspection(r, tierPick(r, 8, 60))
+	c09IsolationAcrossDatabases(r, tierPick(r, 6, 40))
 	if r.Tier == "thorough" {
 		c09Isolation(r, 6, true)
 	}
@@ -456,5 +457,127 @@ func c09Introspection(r *verdict.Run, runs int) {
 			mu.Unlock()
 		}
 		r.Distinct(fmt.Sprintf("introspection/run%d/wedged=%v", run%4, stuck.Load() > 0))
+	})
+}
+
+// c09IsolationAcrossDatabases: transactions in database 0 whose queued commands must see a frozen world (five INCRs
+// of one key answer five consecutive numbers; x and y move together), while connections that have OTHER databases
+// selected run commands that reach into database 0: FLUSHALL plain and inside MULTI/EXEC, transactions with a queued
+// SELECT 0 followed by writes. Those are allowed to happen before or after a transaction, never in the middle of it.
+func c09IsolationAcrossDatabases(r *verdict.Run, runs int) {
+	parallel(runs, 8, func(run int) {
+		c, err := startChild(false)
+		if err != nil {
+			r.Inconclusive("cannot start child")
+			return
+		}
+		defer c.Stop()
+		e, err := startEmu(c, "")
+		if err != nil {
+			r.Inconclusive("infra: " + err.Error())
+			return
+		}
+		c.Ctl("seed %d", r.Seed*211+int64(run))
+		c.Ctl("yield exec:between-commands 600 300")
+		var stop atomic.Bool
+		var wg sync.WaitGroup
+		var txns, broken atomic.Int64
+		var mu sync.Mutex
+		example := ""
+		writer := func(id int) {
+			defer wg.Done()
+			cn, err := e.dial()
+			if err != nil {
+				return
+			}
+			defer cn.Close()
+			cn.Timeout = 20 * time.Second
+			for i := 0; i < 120 && !stop.Load(); i++ {
+				cmds := [][]string{{"MULTI"}, {"INCR", "seq"}, {"INCR", "seq"}, {"SET", "x", strconv.Itoa(i)}, {"INCR", "seq"}, {"SET", "y", strconv.Itoa(i)}, {"INCR", "seq"}, {"MGET", "x", "y"}, {"INCR", "seq"}, {"EXEC"}}
+				vs, err := cn.Pipeline(cmds)
+				if err != nil {
+					return
+				}
+				txns.Add(1)
+				ex := vs[len(vs)-1]
+				if ex.Kind != '*' || ex.Null || len(ex.Elems) != 8 {
+					continue
+				}
+				seqs := []int64{ex.Elems[0].Int, ex.Elems[1].Int, ex.Elems[3].Int, ex.Elems[5].Int, ex.Elems[7].Int}
+				okSeq := true
+				for k := 1; k < len(seqs); k++ {
+					if seqs[k] != seqs[k-1]+1 {
+						okSeq = false
+					}
+				}
+				mg := ex.Elems[6]
+				okPair := mg.Kind == '*' && len(mg.Elems) == 2 && mg.Elems[0].Text() == strconv.Itoa(i) && mg.Elems[1].Text() == strconv.Itoa(i)
+				if !okSeq || !okPair {
+					broken.Add(1)
+					mu.Lock()
+					if example == "" {
+						example = fmt.Sprintf("EXEC of [INCR seq, INCR seq, SET x %d, INCR seq, SET y %d, INCR seq, MGET x y, INCR seq] replied %s", i, i, ex)
+					}
+					mu.Unlock()
+				}
+			}
+		}
+		intruder := func(id int) {
+			defer wg.Done()
+			cn, err := e.dial()
+			if err != nil {
+				return
+			}
+			defer cn.Close()
+			cn.Timeout = 20 * time.Second
+			cn.Do("SELECT", strconv.Itoa(1+id%3))
+			for i := 0; !stop.Load(); i++ {
+				switch (i + id) % 4 {
+				case 0:
+					cn.Do("FLUSHALL")
+				case 1:
+					cn.Pipeline([][]string{{"MULTI"}, {"FLUSHALL"}, {"EXEC"}})
+				case 2:
+					cn.Pipeline([][]string{{"MULTI"}, {"SELECT", "0"}, {"SET", "x", "intruder"}, {"DEL", "seq"}, {"SELECT", strconv.Itoa(1 + id%3)}, {"EXEC"}})
+				case 3:
+					cn.Pipeline([][]string{{"MULTI"}, {"SET", "local", "1"}, {"FLUSHALL", "ASYNC"}, {"EXEC"}})
+				}
+				time.Sleep(time.Duration(200+i%7*100) * time.Microsecond)
+			}
+		}
+		for w := 0; w < 3; w++ {
+			wg.Add(1)
+			go writer(w)
+		}
+		var iwg sync.WaitGroup
+		_ = iwg
+		for k := 0; k < 3; k++ {
+			wg.Add(1)
+			go intruder(k)
+		}
+		// the writers end by themselves; then the intruders are stopped
+		done := make(chan struct{})
+		go func() {
+			for txns.Load() < 360 {
+				time.Sleep(5 * time.Millisecond)
+				select {
+				case <-done:
+					return
+				default:
+				}
+			}
+			stop.Store(true)
+		}()
+		time.AfterFunc(20*time.Second, func() { stop.Store(true) })
+		wg.Wait()
+		close(done)
+		r.Eval(int(txns.Load()))
+		r.Count("cross_database_isolation_transactions", txns.Load())
+		if broken.Load() > 0 {
+			mu.Lock()
+			r.Report("txn/isolation/changed-from-another-database-in-the-middle-of-exec", fmt.Sprintf("run %d: %d of %d transactions in database 0 saw their world change between two of their own commands while connections in other databases ran FLUSHALL (plain, queued, ASYNC) and transactions with a queued SELECT 0; e.g. %s", run, broken.Load(), txns.Load(), example), nil)
+			mu.Unlock()
+		}
+		r.Distinct(fmt.Sprintf("isolation-across-databases/run%d/broken=%v", run%4, broken.Load() > 0))
 	})
 }
